@@ -954,6 +954,39 @@ impl Server {
             )),
         };
 
+        // Receive the listeners handed over by the main process BEFORE replaying the
+        // initial state: the state of an upgraded worker contains an ActivateListener
+        // for every active listener, and that activation must find the handed-over
+        // socket. Replaying first made it bind a second SO_REUSEPORT socket; the
+        // inherited one then sat unaccepted until the main process's own
+        // ActivateListener dropped it, resetting every connection queued on it
+        // while the new worker was starting.
+        info!("will try to receive listeners");
+        server
+            .scm
+            .set_blocking(true)
+            .map_err(|scm_err| ServerError::ScmSocket {
+                msg: "Could not set the scm socket to blocking".to_string(),
+                scm_err,
+            })?;
+        let listeners =
+            server
+                .scm
+                .receive_listeners()
+                .map_err(|scm_err| ServerError::ScmSocket {
+                    msg: "could not receive listeners from the scm socket".to_string(),
+                    scm_err,
+                })?;
+        server
+            .scm
+            .set_blocking(false)
+            .map_err(|scm_err| ServerError::ScmSocket {
+                msg: "Could not set the scm socket to unblocking".to_string(),
+                scm_err,
+            })?;
+        info!("received listeners: {:?}", listeners);
+        server.scm_listeners = Some(listeners);
+
         // initialize the worker with the state we got from a file
         if let Some(state) = initial_state {
             for request in state.requests {
@@ -992,32 +1025,6 @@ impl Server {
             }
             server.unblock_channel();
         }
-
-        info!("will try to receive listeners");
-        server
-            .scm
-            .set_blocking(true)
-            .map_err(|scm_err| ServerError::ScmSocket {
-                msg: "Could not set the scm socket to blocking".to_string(),
-                scm_err,
-            })?;
-        let listeners =
-            server
-                .scm
-                .receive_listeners()
-                .map_err(|scm_err| ServerError::ScmSocket {
-                    msg: "could not receive listeners from the scm socket".to_string(),
-                    scm_err,
-                })?;
-        server
-            .scm
-            .set_blocking(false)
-            .map_err(|scm_err| ServerError::ScmSocket {
-                msg: "Could not set the scm socket to unblocking".to_string(),
-                scm_err,
-            })?;
-        info!("received listeners: {:?}", listeners);
-        server.scm_listeners = Some(listeners);
 
         Ok(server)
     }
